@@ -811,7 +811,7 @@ fn channels() -> Vec<Channel> {
         Channel { name: "presolve.reverse", tol: Tol::Exact, run: run_reverse, oracle: Some(oracle_reverse),
             modelled: true, rust_fn: "Presolver::reverse_presolve", lean: "Presolve.Presolver.reversePresolve / C09.reverse" },
         Channel { name: "problemdata.new", tol: Tol::Exact, run: run_pd_new, oracle: Some(oracle_pd_new),
-            modelled: true, rust_fn: "DefaultProblemData::new (collapse, presolve, cap)", lean: "ProblemData.new / C09.cap" },
+            modelled: true, rust_fn: "DefaultProblemData::new (collapse, presolve, cap; try_presolver; try_chordal_info: its two early None returns - decomposition disabled / no PSD cone of side > 3 in the presolved cone list - with the presolved data selected by unwrap_or / unwrap_and_slice_or_else; the decomposing branch belongs to C18 and is answered err:chordal-not-modelled here)", lean: "ProblemData.new (hasLargePsd) / C09.cap" },
         Channel { name: "infbound.history", tol: Tol::Exact, run: run_history, oracle: Some(oracle_history),
             modelled: true, rust_fn: "set_infinity/default_infinity/get_infinity + DefaultProblemData::new + reverse_presolve",
             lean: "Presolve.InfWorld / C09.bound_history" },
